@@ -1,0 +1,60 @@
+//go:build verif
+
+package primary
+
+// Machine-checked contracts for this package (comment-only; read by the gsv
+// verification-condition generator under /verif). Guarded by the build tag
+// `verif`, so no ordinary build ever sees this file.
+//
+// The contract of the PrimaryStorage interface is stated over ghost state:
+// $Rin[b]  - block code b names a readable (written, not deleted) record
+// $Rkey[b] - its full key, $Rval[b] - its value.
+// $Rused[b] - block code b has been handed out by Put at some time.
+// Callers are verified against this contract. It is an abstract (refinement
+// gap GAP-2) contract: the implementations are verified against concrete
+// pool/position contracts, not against this ghost state.
+
+//@ type PrimaryStorage
+//@   ghost field $Rin (Array Int Bool)
+//@   ghost field $Rkey (Array Int Bytes)
+//@   ghost field $Rval (Array Int Bytes)
+//@   ghost field $Rused (Array Int Bool)
+
+//@ func (p PrimaryStorage) IndexKey(key []byte) (ik []byte, err error)
+//@   trusted interface contract: index key = digest of the multihash/CID, a pure function of the key bytes (assumed of go-multihash / go-cid)
+//@   pure
+//@   ensures wfkey(bytes(key)) ==> err == nil
+//@   ensures len(key) == 0 ==> err != nil
+//@   ensures err == nil ==> bytes(ik) == ikey(bytes(key)) && ik != nil
+
+//@ func (p PrimaryStorage) Get(blk types.Block) (key []byte, value []byte, err error)
+//@   trusted interface contract (GAP-2): readable records are returned with their stored key and value
+//@   ensures err == nil && key != nil ==> p.$Rin[keyof(blk)] && bytes(key) == p.$Rkey[keyof(blk)] && bytes(value) == p.$Rval[keyof(blk)]
+//@   ensures p.$Rin[keyof(blk)] ==> err == nil && key != nil
+//@   ensures err != nil ==> key == nil && value == nil
+
+//@ func (p PrimaryStorage) GetIndexKey(blk types.Block) (ik []byte, err error)
+//@   trusted interface contract (GAP-2)
+//@   ensures err == nil && ik != nil ==> p.$Rin[keyof(blk)] && bytes(ik) == ikey(p.$Rkey[keyof(blk)])
+//@   ensures p.$Rin[keyof(blk)] ==> err == nil && ik != nil
+
+//@ func (p PrimaryStorage) Put(key []byte, value []byte) (blk types.Block, err error)
+//@   trusted interface contract (GAP-2): a new record at a location that was neither readable nor named before
+//@   modifies p.$Rin, p.$Rkey, p.$Rval, p.$Rused
+//@   ensures err == nil ==> !old(p.$Rused)[keyof(blk)] && p.$Rused == old(p.$Rused)[keyof(blk) := true]
+//@   ensures err != nil ==> p.$Rused == old(p.$Rused)
+//@   ensures err == nil ==> p.$Rin == old(p.$Rin)[keyof(blk) := true] && p.$Rkey == old(p.$Rkey)[keyof(blk) := bytes(key)] && p.$Rval == old(p.$Rval)[keyof(blk) := bytes(value)]
+//@   ensures err != nil ==> p.$Rin == old(p.$Rin) && p.$Rkey == old(p.$Rkey) && p.$Rval == old(p.$Rval)
+
+//@ func (p PrimaryStorage) Flush() (w types.Work, err error)
+//@   trusted interface contract (GAP-2): flushing does not change what is readable
+//@ func (p PrimaryStorage) Sync() (err error)
+//@   trusted interface contract
+//@ func (p PrimaryStorage) Close() (err error)
+//@   trusted interface contract
+//@ func (p PrimaryStorage) OutstandingWork() (w types.Work)
+//@   trusted interface contract
+//@   pure
+//@ func (p PrimaryStorage) StorageSize() (n int64, err error)
+//@   trusted interface contract
+//@   pure
